@@ -29,13 +29,28 @@ index values" at offset 6; character codes above 255 are not covered (glyph 0). 
 def spec0 (b : Bytes) (c : Nat) : Nat :=
   if c < 256 then (b.getD (6 + c) 0).toNat else 0
 
-/-- Format 0 under a platform-specific encoding: "character codes" are codes of that encoding, so
-the glyph of a Unicode scalar `r` is `glyphIdArray[c]` for the code `c < 256` whose character is `r`
-(`c2r c = r`; the first such code), glyph 0 if the encoding has no such character. -/
-def spec0Rune (c2r : Nat → Nat) (b : Bytes) (r : Nat) : Nat :=
+/-- `decodeFormat0` with a non-nil `code2rune` (after repair 0c896bc): the same length checks, then a
+unicode-indexed `Format4` map: `for c, gid := range data { if gid != 0 { res[uint16(code2rune(c))] = gid } }`
+(the writes in loop order; later writes win). -/
+def decode0c2r (c2r : Nat → Nat) (b : Bytes) : Outcome (List (Nat × Nat)) :=
+  match decode0 b with
+  | .ok d => .ok ((List.range 256).filterMap fun c =>
+      let g := (d.getD c 0).toNat
+      if g ≠ 0 then some (c2r c % 65536, g) else none)
+  | .err e => .err e
+  | .panic s => .panic s
+
+/-- A subtable of a platform whose character codes are those of a single-byte encoding
+(`c2r` = the character of each code 0..255): the glyph of a Unicode scalar `r` is the glyph of the code
+`c < 256` whose character is `r` (the first such code; MacRoman has exactly one, see
+`C09_macroman_injective`), glyph 0 if the encoding has no such character. -/
+def specRune (c2r : Nat → Nat) (codeGlyph : Nat → Nat) (r : Nat) : Nat :=
   match (List.range 256).find? (fun c => c2r c == r) with
-  | some c => (b.getD (6 + c) 0).toNat
+  | some c => codeGlyph c
   | none => 0
+
+/-- format 0 read in rune space -/
+def spec0Rune (c2r : Nat → Nat) (b : Bytes) (r : Nat) : Nat := specRune c2r (spec0 b) r
 
 /-! ## format 6 -/
 
